@@ -128,11 +128,13 @@ where T: LLLRing + Bridge, for<'x> &'x T: LLLRingOps<T>, T::O: OEuc {
     // beside k + 1/2 while the Gram determinants are around 2^40 .. 2^62 — the regime where any rounding shortcut
     // in the size reduction shows
     if unbounded && tname == "BigInt" && rng.chance(1, 6) {
-        let e = rng.urange(20, 31) as i64;
+        // a third of them sit where the Gram determinant is 2^52 + small: the mantissa boundary of f64
+        let e = if rng.chance(1, 3) { 26 } else { rng.urange(20, 31) as i64 };
         let k = rng.range(-2, 2);
         let p2 = 1i64 << e;
         let s1 = rng.range(-2, 2); let s2 = rng.range(-2, 2);
-        let mut rows: Vec<Vec<i64>> = vec![vec![p2 + rng.range(-1, 1), s1, 0], vec![(2 * k + 1) * (p2 / 2) + rng.range(-1, 1), s2, p2]];
+        let (d1, d2) = (if rng.chance(2, 3) { 0 } else { rng.range(-1, 1) }, if rng.chance(2, 3) { 0 } else { rng.range(-1, 1) });
+        let mut rows: Vec<Vec<i64>> = vec![vec![p2 + d1, s1, 0], vec![(2 * k + 1) * (p2 / 2) + d2, s2, p2]];
         if rng.chance(1, 2) { rows.push(vec![rng.range(-3, 3), p2 / 2 + rng.range(-1, 1), (2 * rng.range(-1, 1) + 1) * (p2 / 2)]) }
         let mm = rows.len();
         ao = OMat::<T::O>::from_fn(mm, 3, |i, j| T::O::from_i64(rows[i][j]));
